@@ -512,6 +512,17 @@ func genC06base(t *rapid.T) C06Case {
 			elem = map[string]val.V{"f": "focus", "v": float64(gen.Int(t, "f1", 0, 3))}
 			elem2 = map[string]val.V{"f": "focus", "v": "changed"}
 		}
+		if gen.Chance(t, "reappears", 50) {
+			// the changed container becomes equal to a container that stays
+			// further along (or further back) in the array, a scalar between them
+			twin := val.Clone(elem2)
+			if k < len(a) || len(a) == 0 {
+				a = append(append(append([]val.V{}, a[:k]...), "sep"), append(a[k:], twin)...)
+			} else {
+				a = append([]val.V{twin, "sep"}, a...)
+				k += 2
+			}
+		}
 		a2 := append(append(append([]val.V{}, a[:k]...), elem), a[k:]...)
 		b2 := append(append(append([]val.V{}, a[:k]...), elem2), a[k:]...)
 		return C06Case{A: val.JSON(a2), B: val.JSON(b2), Wrap: wrap, Focus: &k}
